@@ -166,9 +166,134 @@ def classify(fn, vec):
         r = fn(*vec)
     except (NameError, UnboundLocalError, KeyError):
         return 'unbound'
+    except TypeError as e:
+        # control fell off the end: the compiled body returned None, which the boundary conversion refuses
+        if 'not an FPy value: None' in str(e):
+            return 'falloff'
+        return 'othererr:TypeError'
     except Exception as e:      # noqa: BLE001
         return 'othererr:' + type(e).__name__
     return 'falloff' if r is None else 'ok'
+
+
+class Sys(Builder):
+    """renders a program given as a nested structure (the systematic family): the same tables and text as Builder"""
+
+    def __init__(self):
+        super().__init__(random.Random(0))
+
+    def sblock(self, stmts, ind):
+        bid = len(self.blocks)
+        self.blocks.append(None)
+        out, lines = [], []
+        for st in stmts:
+            a, ls = self.sstmt(st, ind)
+            out.append(a)
+            lines += ls
+        if not lines:
+            lines = ['    ' * ind + 'pass']
+        self.blocks[bid] = out
+        return bid + 1, lines
+
+    def sstmt(self, st, ind):
+        pad = '    ' * ind
+        k = st[0]
+        if k == 'assign':
+            _, d, u = st
+            if len(d) == 2:
+                return {'k': 'assign', 'd': d, 'u': u}, [f'{pad}{d[0]}, {d[1]} = ({self.use_expr(u)}, 2)']
+            return {'k': 'assign', 'd': d, 'u': u}, [f'{pad}{d[0]} = {self.use_expr(u)}']
+        if k == 'ret':
+            return {'k': 'ret', 'u': st[1]}, [f'{pad}return {self.use_expr(st[1], "p")}']
+        if k == 'comp':
+            _, d, u = st
+            return ({'k': 'comp', 'd': [d], 'cv': 'e', 'u': ['e'] + u, 'iu': []}, [f'{pad}{d} = [{self.use_expr(["e"] + u)} for e in range(2)]'])
+        if k == 'if':
+            _, u, th, el = st
+            c = self.slot('c')
+            t, tl = self.sblock(th, ind + 1)
+            lines = [f'{pad}if c{c}{self.zero_expr(u)} > 0:'] + tl
+            f = 0
+            if el is not None:
+                f, fl = self.sblock(el, ind + 1)
+                lines += [f'{pad}else:'] + fl
+            return {'k': 'if', 'u': u, 'c': c, 't': t, 'f': f}, lines
+        if k == 'for':
+            _, d, u, body = st
+            n = self.slot('n')
+            b, bl = self.sblock(body, ind + 1)
+            return ({'k': 'for', 'd': d, 'u': u, 'n': n, 'b': b}, [f'{pad}for {d[0] if d else "_"} in range(n{n}{self.zero_expr(u)}):'] + bl)
+        if k == 'while':
+            _, u, body = st
+            n = self.slot('n')
+            self.nw += 1
+            w = f'w{self.nw}'
+            b, bl = self.sblock(body, ind + 1)
+            return ({'k': 'while', 'u': u, 'n': n, 'b': b},
+                    [f'{pad}{w} = 0', f'{pad}while {w}{self.zero_expr(u)} < n{n}:', f'{pad}    {w} = {w} + 1'] + bl)
+        if k == 'with':
+            _, d, body = st
+            b, bl = self.sblock(body, ind + 1)
+            return ({'k': 'with', 'd': d, 'u': [], 'b': b}, [f'{pad}with fp.REAL{" as " + d[0] if d else ""}:'] + bl)
+        raise AssertionError(k)
+
+
+def systematic():
+    """every way a name can be bound only inside a construct and read in its own header / after it / at the end,
+    and every construct whose body returns standing last"""
+    A = ('assign', ['a'], [])
+    R0, RA = ('ret', []), ('ret', ['a'])
+    progs = []
+    inner = {
+        'if1': lambda body: ('if', [], body, None),
+        'ifelse-one-arm': lambda body: ('if', [], body, [('assign', ['b'], [])]),
+        'ifelse-both': lambda body: ('if', [], body, body),
+        'for-body': lambda body: ('for', [], [], body),
+        'for-e': lambda body: ('for', ['e'], [], body),
+        'while': lambda body: ('while', [], body),
+        'with': lambda body: ('with', [], body),
+        'with-as': lambda body: ('with', ['b'], body),
+    }
+    for nm, mk in inner.items():
+        progs.append([mk([A]), RA])                                   # bound inside, read after
+        progs.append([mk([A]), ('assign', ['b'], ['a']), R0])
+        progs.append([mk([R0])])                                       # a body that returns, standing last
+        progs.append([mk([A, R0])])
+        progs.append([mk([mk([A])]), RA])                              # two levels
+        progs.append([A, mk([('assign', ['a'], ['a'])]), RA])          # bound before: fine
+        progs.append([mk([mk([R0])])])
+    # read in the construct's own header
+    progs.append([('while', ['a'], [A]), R0])
+    progs.append([('while', ['a'], [A]), RA])
+    progs.append([('for', [], ['a'], [A]), R0])
+    progs.append([('for', ['a'], ['a'], []), R0])
+    progs.append([('if', ['a'], [A], None), R0])
+    progs.append([('if', ['a'], [A], [A]), RA])
+    progs.append([('for', ['a'], [], [('assign', ['b'], ['a'])]), ('ret', ['b'])])
+    progs.append([('for', ['a'], [], []), RA])
+    progs.append([('with', ['a'], [('assign', ['b'], ['a'])]), ('ret', ['a', 'b'])])
+    progs.append([('comp', 'b', []), ('ret', ['e'])])
+    progs.append([('comp', 'b', ['a']), R0])
+    progs.append([('comp', 'a', []), RA])
+    progs.append([('assign', ['a', 'b'], []), ('ret', ['a', 'b'])])
+    progs.append([('if', [], [R0], [R0])])
+    progs.append([('if', [], [R0], [A]), RA])
+    progs.append([('if', [], [A], [R0]), RA])
+    progs.append([('while', [], [('if', [], [R0], None)])])
+    progs.append([('for', [], [], [('if', [], [R0], [R0])])])
+    progs.append([('while', [], [('if', [], [A], None), RA]), R0])
+    progs.append([('for', [], [], [('if', [], [A], [A]), ('assign', ['b'], ['a'])]), R0])
+    out = []
+    for pr in progs:
+        b = Sys()
+        _, lines = b.sblock(pr, 1)
+        params = ['p'] + [f'{k}{i + 1}' for i, k in enumerate(b.kinds)]
+        text = '\n'.join(['@fp.fpy', 'def {name}(' + ', '.join(x + ': fp.Real' for x in params) + '):'] + lines)
+        out.append(({'params': ['p'] + [f'w{i + 1}' for i in range(b.nw)], 'blocks': b.blocks, 'kinds': b.kinds}, text))
+    return out
+
+
+ALLHAND = HAND + systematic()
 
 
 def record(job):
@@ -179,8 +304,8 @@ def record(job):
         for i in range(lo, hi):
             rng = random.Random(seed * 100003 + i)
             name = f's{i}'
-            if i < len(HAND):
-                absp, text = HAND[i]
+            if i < len(ALLHAND):
+                absp, text = ALLHAND[i]
                 text = text.replace('{name}', name)
                 absp = json.loads(json.dumps(absp))
             else:
@@ -251,7 +376,7 @@ def run(tier: str) -> int:
                     'traces_validated_against_impl': sum(len(p['steer']) for p in progs if p['accepted']),
                     'distinct_nontrivial': len({json.dumps(p['blocks']) for p in progs if len(p['blocks']) > 1}),
                     'other_errors': dict(other),
-                    'rule': 'seeded programs of the bounded grammar (<= 4 statements per block, depth <= 2, names a/b/e) + the guide\'s examples; '
+                    'rule': 'seeded programs of the bounded grammar (<= 4 statements per block, depth <= 2, names a/b/e) + the guide\'s examples + a systematic family (names bound only inside each construct, read in its header / after it; returning bodies standing last); '
                             'every combination of branch outcomes and trip counts 0/1/2 (<= 36 per program); non-trivial = has a nested block'})
     for p in progs[:3]:
         rep.sample({'src': p['src'], 'accepted': p['accepted'], 'steer': p['steer'][:2]})
